@@ -296,6 +296,9 @@ def getaxes_broadcast(obj, indices):
             name = ",".join([obj.axes[i].name for i in array_ix_pos])
 
         broadcastaxis = Axis(values, name)
+        if len(array_ix_pos) == 1:
+            # the same axis, sampled: keeps its metadata (like orthogonal indexing)
+            broadcastaxis.attrs.update(obj.axes[array_ix_pos[0]].attrs)
 
         newaxes = Axes()
         for i, ax in enumerate(obj.axes):
